@@ -42,7 +42,8 @@ void build_stream(const Plan &plan, StreamRef &sr) {
       for (int i = 0; i < np; i++) { Pkt p; size_t n = 8 + fr.below(300); p.data.resize(n); for (auto &b : p.data) b = (uint8_t)fr.next(); memcpy(p.data.data(), i == 0 ? "fishead" : "fisbone", 7); p.granule = i * 100; foreign.push_back(p); }
     }
     mux_link(sr.ps, l, mp, foreign.empty() ? nullptr : &foreign, lr->i("fserial", 77000 + (long)sr.ps.links.size()));
-    if (r.bs64) sr.has_bs64 = true;
+    if (r.bs64) { sr.has_bs64 = true; sr.bs64_rewritten = true; }
+    if (l->bs0 <= 64) sr.has_bs64 = true;
   }
   sr.nlinks = (int)sr.ps.links.size();
   int64_t acc = 0;
